@@ -278,7 +278,7 @@ int main(int argc, char **argv)
          * verify leaves a fresh parser, so the walk below is unaffected */
         { track_t t0; memset(&t0, 0, sizeof t0); t0.fresh = true; call_op(p, doc, x.n, "v", NULL, 0, 0, &t0); }
         walk(&g, p, doc, x.n, root, kind == 2, d < 10 ? (d < 8 ? -2 : 8) : (kind != 2 && rng_chance(&r, 1, 3)) ? -1 : 4 + (int) rng_below(&r, 60));
-        if (kind == 0 && rng_chance(&r, 1, 2) && binson_parser_reset(p)) {   /* C10: decode-then-encode must reproduce the document */
+        if (kind == 0 && (d < 10 || rng_chance(&r, 1, 2)) && binson_parser_reset(p)) {   /* the nesting-limit documents always */   /* C10: decode-then-encode must reproduce the document */
             int xr = transcribe_doc(p, doc, x.n, root); fprintf(OUTF, "{\"e\":\"xc\",\"ret\":%d}\n", xr); nevents++;
         }
         if (rng_chance(&r, 1, 3)) {           /* second pass on the same object after reset/verify (C12) */
